@@ -156,7 +156,8 @@ Proof.
     pose proof (body_OI t genes None body empty_frame s inner t1 IH Einner Hi) as Hb.
     pose proof (close_og_OI _ _ _ _ _ _ _ _ Eclose Hb) as Hc.
     destruct cl; apply ret_ok in K2 as [_ <-]; exact Hc.
-  - cbn [eval_item] in H. inv_bind_as H k t1 Ek K1. inv_bind_as K1 fr1 t2 Ebody K2. inv_bind_as K2 u3 t3 E3 K3.
+  - cbn [eval_item] in H. inv_bind_as H k t1 Ek K1. inv_bind_as K1 fr1 t2 Ebody K2. inv_bind_as K2 uc tc Ec Kc.
+    apply chk_ok in Ec as [-> _]. inv_bind_as Kc u3 t3 E3 K3.
     apply ret_ok in K3 as [_ <-].
     assert (Hi1 : OI t1).
     { destruct pg; [apply ret_ok in Ek as [_ <-]; exact Hi|eapply OI_same; [eapply fresh_dup_same; eauto|exact Hi]]. }
